@@ -227,6 +227,41 @@ class CallsMixin:
             r.items = [INT(1) for _ in range(r.dims[0].as_int())]
         return r
 
+    def _like(self, pos, kw, node, uninit=False):
+        a = self.as_arr(pos[0]) if pos else ARR(None)
+        shv = kw.get('shape')
+        dims = a.dims
+        if shv is not None and shv.k != 'none':
+            sh = self.shape_arg(shv)
+            dims = tuple(sh) if sh is not None else None
+        dtv = self.kwarg(pos, kw, 1, 'dtype')
+        dt = a.dt
+        if dtv is not None and dtv.k != 'none':
+            dt = self.dtype_arg(dtv, a.dt)
+        r = ARR(dims, dt)
+        r.uninit = uninit
+        return r
+
+    def n_zeros_like(self, pos, kw, node, env):
+        r = self._like(pos, kw, node)
+        r.nonneg = True
+        r.note = 'zeros'
+        return r
+
+    def n_ones_like(self, pos, kw, node, env):
+        r = self._like(pos, kw, node)
+        r.nonneg = True
+        r.note = 'nonzero'
+        return r
+
+    def n_full_like(self, pos, kw, node, env):
+        return self._like(pos[:1], kw, node)
+
+    def n_empty_like(self, pos, kw, node, env):
+        r = self._like(pos, kw, node, uninit=True)
+        self.I.site('R-empty', node, 'ok', 'np.empty_like site')
+        return r
+
     def n_empty(self, pos, kw, node, env):
         r = self._create(pos, kw, node, uninit=True)
         self.I.site('R-empty', node, 'ok', 'np.empty site')
